@@ -1004,6 +1004,6 @@ def rule_out_param_not_reseated(ctx):
                 ctx.violated("OUTPARAM", key, f.where(bad[0][4]), "`%s` assigns to the pointer parameter itself; everywhere else %s writes through it (`*%s = ...`): the result is lost and "
                              "a later `*%s` dereferences the constant" % (render(bad[0])[:40], f.name, v, v))
             else:
-                ctx.holds("OUTPARAM", key, f.where(), "`%s` is only written through", nontrivial=False)
+                ctx.holds("OUTPARAM", key, f.where(), "`%s` is only written through" % v, nontrivial=False)
     ctx.floor("OUTPARAM", 20, n, "(pointer out-parameters in the tools)")
     return n
